@@ -174,6 +174,44 @@ func sortAll(c *core.Ctx, keys []int, r *core.Rand) bool {
 		return false
 	}
 	c.Count("inputs", 1)
+	if n == 0 {
+		// empty but non-nil slices (also with capacity, also cut out of a longer one)
+		if p, pv := core.Catch(func() {
+			long := []int{4, 5, 6}
+			for _, e := range [][]int{{}, make([]int, 0, 8), long[:0], long[2:2], long[3:]} {
+				if slices.BinarySearch(e, 5) != 0 || slices.BinarySearch(e, -5) != 0 || slices.BinarySearchFunc(e, func(int) bool { return true }) != 0 {
+					panic("BinarySearch on an empty slice did not return 0")
+				}
+				slices.Sort(e)
+				slices.SortDesc(e)
+				slices.SortFunc(e, func(a, b int) bool { return a < b })
+				slices.SortStableFunc(e, func(a, b int) bool { return a < b })
+				slices.Shuffle(e)
+			}
+			if long[0] != 4 || long[1] != 5 || long[2] != 6 {
+				panic("a helper called on an empty sub-slice touched the surrounding slice")
+			}
+		}); p {
+			return fail("empty-slice", fmt.Sprintf("a sort/search helper on an empty, non-nil slice misbehaved: %v", pv))
+		}
+		// nil slices are empty inputs too
+		if p, pv := core.Catch(func() {
+			var ni []int
+			var nt []tg
+			slices.Sort(ni)
+			slices.SortDesc(ni)
+			slices.SortFunc(nt, func(a, b tg) bool { return a.Key < b.Key })
+			slices.SortStableFunc(nt, func(a, b tg) bool { return a.Key < b.Key })
+			slices.SortStableDescFunc(nt, func(a, b tg) bool { return a.Key < b.Key })
+			slices.Shuffle(nt)
+			slices.ShuffleRand(nt, rand.New(rand.NewSource(1)))
+			if slices.BinarySearch(ni, 5) != 0 || slices.BinarySearchFunc(nt, func(tg) bool { return true }) != 0 {
+				panic("BinarySearch on a nil slice did not return 0")
+			}
+		}); p {
+			return fail("nil-slice", fmt.Sprintf("a sort/search helper on a nil slice misbehaved: %v", pv))
+		}
+	}
 	mk := func() []tg {
 		// spare capacity with sentinels: sorting must stay within len(slice)
 		s := make([]tg, n, n+2)
@@ -478,6 +516,51 @@ func sortFuncVariants[E comparable](c *core.Ctx, keys []int, tname string, fail 
 		if v.stable {
 			c.Count("stable_tie_pairs_checked", int64(ties))
 		}
+	}
+	// a less function that itself sorts (a private copy of the input, with the stable
+	// variant): the outer sort must come out right all the same
+	if tname == "16B" && n >= 2 && n <= 200 {
+		for _, v := range vs {
+			s := mk()
+			inner := 0
+			nestedLess := func(a, b E) bool {
+				if inner < 3 {
+					inner++
+					cp := mk()
+					slices.SortStableFunc(cp, less)
+					for i := 1; i < n; i++ {
+						ka, ia := ki(cp[i-1])
+						kb, ib := ki(cp[i])
+						if ka > kb || (ka == kb && ia > ib) {
+							panic("the nested stable sort is wrong")
+						}
+					}
+				}
+				return less(a, b)
+			}
+			var run func()
+			switch v.name {
+			case "SortFunc":
+				run = func() { slices.SortFunc(s, nestedLess) }
+			case "SortDescFunc":
+				run = func() { slices.SortDescFunc(s, nestedLess) }
+			case "SortStableFunc":
+				run = func() { slices.SortStableFunc(s, nestedLess) }
+			default:
+				run = func() { slices.SortStableDescFunc(s, nestedLess) }
+			}
+			if p, pv := core.Catch(run); p {
+				return fail(v.name+":nested-sort-in-less", fmt.Sprintf("%s with a less function that sorts a private copy: %v", v.name, pv))
+			}
+			for i := 1; i < n; i++ {
+				ka, ia := ki(s[i-1])
+				kb, ib := ki(s[i])
+				if (!v.desc && kb < ka) || (v.desc && ka < kb) || (v.stable && ka == kb && ia > ib) {
+					return fail(v.name+":nested-sort-in-less", fmt.Sprintf("%s with a less function that itself calls SortStableFunc on a private copy: the outer result is out of order or not stable at position %d", v.name, i))
+				}
+			}
+		}
+		c.Count("sorts_with_nested_sort_in_less", 4)
 	}
 	// ShuffleRand over this element type: a permutation, and a function of the generator
 	// alone - the same seed gives the same order, also on the second and third call
